@@ -161,7 +161,7 @@ type StepResult struct {
 
 // Advance moves the factomd tip to h and waits until the node has committed h.
 func (r *Runner) Advance(h uint32, timeout time.Duration) StepResult {
-	r.Srv.KeepLog = true
+	r.Srv.SetKeepLog(true)
 	r.Srv.SetTip(h)
 	deadline := time.Now().Add(timeout)
 	startSeq := r.Srv.Seq()
